@@ -15,6 +15,12 @@
 (* mechanism sets up the evaluator's local / global mapping from them (Setup) and binds into   *)
 (* the local one; sc records per mapping ("script", "g", "l") what was bound.  "funcexec" =    *)
 (* exec called inside a function body with explicit namespaces.                               *)
+(* Round 4: relative from-imports (`from .m import b`, `from ..m import *`, `from . import m`) *)
+(* executed by code of a package (app, module package, sub-package) or of no package: the      *)
+(* mechanism resolves the member below the package and never falls back to an absolute module. *)
+(* Mutants "rel-fallback" (a non-member goes on to the allow-list check under its bare name -   *)
+(* the pinned tree) and "rel-exempt" (a relative clause is exempt from the check and loads the  *)
+(* absolute module) violate the invariants.                                                    *)
 EXTENDS ImportCore, TLC, Json
 CONSTANT Mutant
 
@@ -27,12 +33,17 @@ Mods == { M(<<"math">>, "math"), M(<<"mathx">>, "mathx"), M(<<"os">>, "os"), M(<
           M(<<"stubs">>, "stubs"), M(<<"stubs", "gen">>, "stubs.gen") }
 \* installed in the interpreter (plain CPython can import it)
 Installed == {"math", "os", "os.path", "json", "json.decoder", "socket", "homeassistant", "homeassistant.const", "homeassistant.core"}
+P(n, cn, sc) == [name |-> n, ctxname |-> cn, scope |-> sc, pub |-> <<"b", "p1", "p2">>, star |-> <<"p1", "p2">>]
 E0 == [allow |-> {"math", "json", "homeassistant.const"},
-       pys   |-> { [name |-> "json", ctxname |-> "modules.json", scope |-> "any"],      \* shadows an allow-listed module
-                   [name |-> "socket", ctxname |-> "modules.socket", scope |-> "any"],  \* shadows a refused module
-                   [name |-> "pk", ctxname |-> "modules.pk", scope |-> "any"],
-                   [name |-> "pk.sub", ctxname |-> "modules.pk.sub", scope |-> "any"],
-                   [name |-> "app1", ctxname |-> "apps.app1", scope |-> "app"] }]
+       pys   |-> { P("json", "modules.json", "any"),      \* shadows an allow-listed module
+                   P("socket", "modules.socket", "any"),  \* shadows a refused module
+                   P("pk", "modules.pk", "any"),
+                   P("pk.sub", "modules.pk.sub", "any"),
+                   P("pk.math", "modules.pk.math", "any"),          \* a member named like an allow-listed module
+                   P("pk.deep", "modules.pk.deep", "any"),
+                   P("pk.deep.er", "modules.pk.deep.er", "any"),
+                   P("app1", "apps.app1", "app"),
+                   P("app1.sib", "apps.app1.sib", "app") }]
 IsPysName(m) == \E p \in E0.pys : p.name = m
 Truth(m) == [imp |-> IF m.mod \in Installed \/ IsPysName(m.mod) THEN "ok" ELSE "ModuleNotFoundError",
              has |-> TRUE, star |-> <<"p1", "p2">>, pub |-> <<"p1", "p2">>]
@@ -46,6 +57,20 @@ Stmts ==
   { [form |-> "import", clauses |-> <<c>>, truth |-> <<TruthOfClause(c)>>] : c \in ImportClauses } \cup
   { [form |-> "import", clauses |-> <<c, d>>, truth |-> <<TruthOfClause(c), TruthOfClause(d)>>] : c \in { x \in ImportClauses : x.as = "-" }, d \in Second } \cup
   { [form |-> "from", clauses |-> <<c>>, truth |-> <<TruthOfClause(c)>>] : c \in UNION { FromClauses(m) : m \in Mods } }
+\* relative statements: names that are members of some package of the scenario (sub, sib, math, deep.er), names of
+\* installed modules that are not (os: refused; math: allow-listed; json: allow-listed and shadowed by a pyscript module)
+RelMods == { M(<<"math">>, "math"), M(<<"os">>, "os"), M(<<"json">>, "json"),
+             M(<<"sub">>, "sub"), M(<<"sib">>, "sib"), M(<<"deep", "er">>, "deep.er") }
+PkgClause(m, a) == [mod |-> m, parts |-> <<m>>, as |-> a, name |-> "-"]
+PkgNames == {"math", "os", "json", "sub", "sib", "deep"}
+RelStmts ==
+  { [form |-> "from", clauses |-> <<c>>, truth |-> <<TruthOfClause(c)>>] : c \in UNION { FromClauses(m) : m \in RelMods } } \cup
+  { [form |-> "frompkg", clauses |-> <<c>>, truth |-> <<TruthOfClause(c)>>] : c \in { PkgClause(m, a) : m \in PkgNames, a \in {"-", "x"} } } \cup
+  { [form |-> "frompkg", clauses |-> <<c, d>>, truth |-> <<TruthOfClause(c), TruthOfClause(d)>>] :
+        c \in { PkgClause(m, "-") : m \in {"sub", "sib", "os"} }, d \in { PkgClause(m, "y") : m \in {"os", "sub"} } }
+Pkgs == { <<>>, <<"apps", "app1">>, <<"modules", "pk">>, <<"modules", "pk", "deep">> }
+Levels == 1..3
+RelStmtsNs == { s \in RelStmts : Len(s.clauses) = 1 /\ s.clauses[1].mod \in {"os", "sub"} }
 Vias == {"direct", "func", "exec", "evalexec", "eval", "funcexec"}
 \* explicit namespaces multiply the statement space by 20: there one module of every kind (allowed, refused, dotted,
 \* shadowing an allowed / a refused module, submodule of a pyscript package, app package, stubs) and a fixed second clause
@@ -58,13 +83,23 @@ vars == <<cs, k, phase, sc, ex, loaded, symt, globt>>
 Nothing == [q \in Places \cup {"lost"} |-> {}]
 AllBound == UNION { sc[q] : q \in Places }
 
-Configs(SS, V, NN) == { [form |-> s.form, clauses |-> s.clauses, truth |-> s.truth, via |-> v, ns |-> n, ctx |-> x, allow_all |-> a] :
+Configs(SS, V, NN) == { [form |-> s.form, clauses |-> s.clauses, truth |-> s.truth, via |-> v, ns |-> n, ctx |-> x, allow_all |-> a,
+                          level |-> 0, pkg |-> IF x = "app" THEN <<"apps", "app1">> ELSE <<>>] :
                          s \in SS, v \in V, n \in NN, x \in {"file", "app"}, a \in BOOLEAN }
+RelConfigsAll(SS, V, NN, PP, LL) ==
+                       { [form |-> s.form, clauses |-> s.clauses, truth |-> s.truth, via |-> v, ns |-> n,
+                          ctx |-> IF Len(p) > 0 /\ p[1] = "apps" THEN "app" ELSE "file", allow_all |-> a, level |-> l, pkg |-> p] :
+                         s \in SS, v \in V, n \in NN, p \in PP, l \in LL, a \in BOOLEAN }
+\* (a script outside any package: one dot is enough; packages: at most one level above the top)
+RelConfigs(SS, V, NN, PP, LL) == { c \in RelConfigsAll(SS, V, NN, PP, LL) : c.level <= IF c.pkg = <<>> THEN 1 ELSE Len(c.pkg) }
 \* (with namespace arguments: app packages from the app context, everything else from a script file)
 NsCtxOK(c) == c.ctx = IF c.clauses[1].mod = "app1" THEN "app" ELSE "file"
 Init == /\ cs \in Configs(Stmts, Vias \ {"funcexec"}, {NsNone})
                    \cup { c \in Configs(StmtsNs, {"exec", "evalexec", "funcexec"}, NsExplicit) : NsCtxOK(c) }
                    \cup { c \in Configs(StmtsNs, {"eval"}, {[g |-> "empty", l |-> "-"], [g |-> "globals", l |-> "locals"], [g |-> "data", l |-> "data"]}) : NsCtxOK(c) }
+                   \cup RelConfigs(RelStmts, {"direct", "func", "exec"}, {NsNone}, Pkgs, Levels)     \* (at most one level above the top)
+                   \cup RelConfigs(RelStmts, {"evalexec", "eval"}, {NsNone}, {<<"modules", "pk">>}, {1})
+                   \cup RelConfigs(RelStmtsNs, {"exec", "funcexec"}, NsExplicit, {<<"modules", "pk">>, <<"apps", "app1">>}, {1})
         /\ k = 1 /\ phase = "parse" /\ sc = Nothing /\ ex = "none" /\ loaded = {}
         /\ symt = "script" /\ globt = "script"
 
@@ -74,8 +109,9 @@ IsPrefix(a, m) == Len(a) <= Len(m) /\ SubSeq(m, 1, Len(a)) = a
 OnList(c) == IF Mutant = "prefix" THEN \E a \in E0.allow : IsPrefix(a, c.mod) ELSE c.mod \in E0.allow
 Passes(c) == cs.allow_all \/ OnList(c) \/ (Mutant = "skip-dotted" /\ cs.form = "import" /\ Len(c.parts) > 1)
 \* the names the mechanism binds for a clause (`import a.b` binds the dotted name)
-Names(c) == IF cs.form = "import" THEN {IF c.as # "-" THEN c.as ELSE c.mod}
-            ELSE IF c.name = "*" THEN ToSet(cs.truth[k].star) ELSE {IF c.as # "-" THEN c.as ELSE c.name}
+Tr(j) == TruthOf(cs, j, E0)
+Names(c) == IF cs.form \in {"import", "frompkg"} THEN {IF c.as # "-" THEN c.as ELSE c.mod}
+            ELSE IF c.name = "*" THEN ToSet(Tr(k).star) ELSE {IF c.as # "-" THEN c.as ELSE c.name}
 ExcName(e) == IF e = "refused" THEN Refusal ELSE e
 \* the mapping the mechanism binds into: the evaluator's local one (mutant: the global one)
 BindT == IF Mutant = "bind-globals" THEN globt ELSE symt
@@ -97,6 +133,12 @@ Parse == /\ phase = "parse"
          /\ UNCHANGED <<cs, k, sc, loaded>>
 Resolve == /\ phase = "resolve"
            /\ IF cs.form = "from" /\ IsStub(Cl) THEN phase' = "done" /\ ex' = "ok"
+              ELSE IF IsRel(cs)
+                THEN IF NoParent(cs) \/ AboveParent(cs) THEN phase' = "done" /\ ex' = "ImportError"
+                     ELSE IF RelPys(cs, Cl, E0) # {} THEN phase' = "load" /\ ex' = ex            \* the member below the package
+                     ELSE IF Mutant = "rel-fallback" /\ cs.form = "from" THEN phase' = "check" /\ ex' = ex
+                     ELSE IF Mutant = "rel-exempt" /\ cs.form = "from" THEN phase' = "load" /\ ex' = ex
+                     ELSE phase' = "done" /\ ex' = "refused"                                    \* no member: never an absolute module
               ELSE IF IsPyscriptModule(Cl, cs.ctx, E0) THEN phase' = "load" /\ ex' = ex
               ELSE phase' = "check" /\ ex' = ex
            /\ sc' = IF Mutant = "bind-first" /\ ~(cs.form = "from" /\ IsStub(Cl)) THEN [sc EXCEPT ![BindT] = @ \cup Names(Cl)] ELSE sc
@@ -105,8 +147,8 @@ Check == /\ phase = "check"
          /\ IF Passes(Cl) THEN phase' = "load" /\ ex' = ex ELSE phase' = "done" /\ ex' = "refused"
          /\ UNCHANGED <<cs, k, sc, loaded, symt, globt>>
 Load == /\ phase = "load"
-        /\ IF cs.truth[k].imp = "ok" THEN phase' = "bind" /\ ex' = ex /\ loaded' = loaded \cup {Cl.mod}
-           ELSE phase' = "done" /\ ex' = cs.truth[k].imp /\ loaded' = loaded
+        /\ IF Tr(k).imp = "ok" THEN phase' = "bind" /\ ex' = ex /\ loaded' = loaded \cup {Cl.mod}
+           ELSE phase' = "done" /\ ex' = Tr(k).imp /\ loaded' = loaded
         /\ UNCHANGED <<cs, k, sc, symt, globt>>
 Bind == /\ phase = "bind"
         /\ sc' = [sc EXCEPT ![BindT] = @ \cup Names(Cl)]
@@ -116,9 +158,11 @@ Bind == /\ phase = "bind"
 Next == Parse \/ Resolve \/ Check \/ Load \/ Bind
 Spec == Init /\ [][Next]_vars
 
-RefusedClause(j) == ~Allowed(cs.clauses[j], cs.ctx, cs.allow_all, E0) /\ ~(cs.form = "from" /\ IsStub(cs.clauses[j]))
-AllNames(j) == UNION NamesOf(cs.form, cs.clauses[j], cs.truth[j], {})
-RefusedBindsNothing == \A j \in 1..Len(cs.clauses) : RefusedClause(j) /\ ~(\E i \in 1..Len(cs.clauses) : i # j /\ AllNames(i) \cap AllNames(j) # {})
+RelImpossible == IsRel(cs) /\ (NoParent(cs) \/ AboveParent(cs))
+RefusedClause(j) == IF IsRel(cs) THEN ~RelImpossible /\ RelPys(cs, cs.clauses[j], E0) = {} /\ ~(cs.form = "from" /\ IsStub(cs.clauses[j]))
+                    ELSE ~Allowed(cs.clauses[j], cs.ctx, cs.allow_all, E0) /\ ~(cs.form = "from" /\ IsStub(cs.clauses[j]))
+AllNames(j) == UNION NamesOf(cs.form, cs.clauses[j], Tr(j), {})
+RefusedBindsNothing == \A j \in 1..Len(cs.clauses) : (RefusedClause(j) \/ RelImpossible) /\ ~(\E i \in 1..Len(cs.clauses) : i # j /\ AllNames(i) \cap AllNames(j) # {})
                                                         => AllBound \cap AllNames(j) = {}
 AllowedIffRule == phase = "done" =>
    /\ Out(ExcName(ex), AllBound) \in Outcomes(cs, E0, {})
@@ -126,13 +170,24 @@ AllowedIffRule == phase = "done" =>
 \* in every state, whatever is bound is bound in the mapping the call designates and nowhere else
 BoundWhereDesignated == \A q \in Places : q # Place(cs.via, cs.ns) => sc[q] = {}
 StubsIgnored == phase = "done" /\ cs.via # "eval" /\ cs.form = "from" /\ IsStub(cs.clauses[1]) => ex = "ok" /\ AllBound = {} /\ loaded = {}
-ShadowResolvesToPyscript == phase = "bind" /\ IsPyscriptModule(Cl, cs.ctx, E0) => ClassOf(cs, E0, Cl) \in {"pysmod:" \o p.ctxname : p \in E0.pys} \cup {"attr:pysmod:" \o p.ctxname : p \in E0.pys}
+\* a relative clause never loads anything but a member of the package
+RelativeStaysInPackage == IsRel(cs) => \A m \in loaded : \E j \in 1..Len(cs.clauses) : cs.clauses[j].mod = m /\ RelPys(cs, cs.clauses[j], E0) # {}
+ShadowResolvesToPyscript == phase = "bind" /\ (IF IsRel(cs) THEN TRUE ELSE IsPyscriptModule(Cl, cs.ctx, E0)) => ClassOf(cs, E0, Cl, {}) \in {"pysmod:" \o p.ctxname : p \in E0.pys} \cup {"attr:pysmod:" \o p.ctxname : p \in E0.pys}
 
 \* expected outcome table: one line per final state; the w_* fields are the witnesses that the
 \* antecedents of the invariants are not vacuous (the driver requires each to occur)
 Table == phase = "done" =>
    PrintT("INFO " \o ToJson([form |-> cs.form, mods |-> [j \in 1..Len(cs.clauses) |-> cs.clauses[j].mod], as |-> cs.clauses[1].as,
                              name |-> cs.clauses[1].name, via |-> cs.via, ns |-> cs.ns, ctx |-> cs.ctx, allow_all |-> cs.allow_all,
+                             level |-> cs.level, pkg |-> cs.pkg,
+                             w_rel_member  |-> IsRel(cs) /\ ex = "ok" /\ AllBound # {},
+                             w_rel_refused |-> IsRel(cs) /\ ex = "refused" /\ ~cs.allow_all,
+                             w_rel_refused_allow_all |-> IsRel(cs) /\ ex = "refused" /\ cs.allow_all /\ Cl.mod \in Installed,
+                             w_rel_refused_listed |-> IsRel(cs) /\ ex = "refused" /\ Cl.mod \in E0.allow,     \* where the pinned tree falls back
+                             w_rel_impossible |-> IsRel(cs) /\ ex = "ImportError" /\ cs.via # "eval",
+                             w_rel_level2  |-> cs.level = 2 /\ ex = "ok" /\ AllBound # {},
+                             w_rel_partial |-> IsRel(cs) /\ ex = "refused" /\ AllBound # {},
+                             w_rel_ns      |-> IsRel(cs) /\ cs.ns # NsNone /\ (sc["g"] # {} \/ sc["l"] # {}),
                              exc |-> ExcName(ex), bound |-> AllBound, place |-> Place(cs.via, cs.ns),
                              w_ns_g    |-> sc["g"] # {},
                              w_ns_l    |-> sc["l"] # {},
